@@ -4,9 +4,11 @@ import json, os
 
 CLAIMED = {
  'C01': dict(
-   text=("Proof (Lean 4): ja3.Bare is proved equal to the JA3 specification string for every parsed hello "
-         "(all list shapes, GREASE anywhere), over the GREASE table regenerated from the source; the byte-level "
-         "parser is a line-by-line model of tlsx tied to the code by an exact differential (value / error class / panic)"),
+   text=("Proof (Lean 4): for every well-formed ClientHello h and hash H, ja3Header H (serialize h) = hex(H(ja3Spec h)) "
+         "(ja3_of_hello: parseBasic∘serialize = basicOf for every HelloWF hello, by induction over the extension list; "
+         "bare_eq_spec: ja3.Bare equals the JA3 specification string for all list shapes, GREASE anywhere), over the GREASE "
+         "table regenerated from the source; the byte-level parser is a line-by-line model of tlsx tied to the code by an "
+         "exact differential (value / error class / panic)"),
    note=("Trusted: Lean kernel + propext/Classical.choice/Quot.sound; the go/ast translator; the correspondence harness; "
          "tlsx is mirrored, not verified; MD5 is a parameter; crypto/tls acceptance assumed to imply well-formedness"),
    technique="Lean 4 theorem over regenerated table + model/implementation differential with spec oracle",
